@@ -69,7 +69,9 @@ def driveOne (body impl : String) : Verdict :=
   match splitTrim body ";" with
   | [head, callsS, waitsS] =>
     match words head with
-    | [call, blk, _limitUs, shapeS] =>
+    | [callF, blk, _limitUs, shapeS] =>
+      -- `recv:w` / `recvmsg:w` = the same call with MSG_WAITALL: the hooked layers pass flags through
+      let call := (callF.splitOn ":").headD callF
       if call == "connect" then driveConnect blk callsS waitsS impl else
       match kindOf call with
       | none => { modelOut := "BADCALL" }
